@@ -365,6 +365,12 @@ def wrapOpsOf (k : WrapKind) (detail : Bool) (ct : Str) : List POp × Bool × Bo
   | .user .. => ((simpleWrapOps (wrapText k ct) ct).1, (simpleWrapOps (wrapText k ct) ct).2, false)
   | _ => wrapScript k detail
 
+/-- the stack a wrapper layer provides (StackTraceProvider) -/
+def wrapStackOf : WrapKind → Option Stack
+  | .withStack s => some s
+  | .pkgWithStack s => some s
+  | _ => none
+
 /-- attach the stack of a StackTraceProvider layer -/
 def withStackOf (en : Entry) (ls : Stack) (st : Option Stack) : Entry × Stack :=
   match st with
@@ -432,11 +438,7 @@ def ents (red detail : Bool) : Err → (outer withDepth : Bool) → (depth : Nat
     let sub := ents red detail c false wd (depth + 1) ls
     let res := wrapOpsOf k detail (errText c)
     let en := collect (runOps detail res.1) res.2.2 red wd depth e.ty.tstr
-    let st : Option Stack := match k with
-      | .withStack s => some s
-      | .pkgWithStack s => some s
-      | _ => none
-    let r := withStackOf en sub.2 st
+    let r := withStackOf en sub.2 (wrapStackOf k)
     ((if res.2.1 then markElided sub.1 else sub.1) ++ [r.1], r.2)
   | .second id c s, _, wd, depth, ls =>
     let sub := ents red detail c false wd (depth + 1) ls
